@@ -14,6 +14,7 @@ import (
 	"sort"
 	"strconv"
 	"strings"
+	"sync"
 )
 
 type Type int
@@ -32,6 +33,12 @@ var (
 	LinkTypeId    Type
 	FileTypeId    Type
 )
+
+// typeIdsOnce guards the type ids above. Every generator registers the
+// built-in types first and in the same order, so their ids are the same in
+// every generator. They are stored only once, which allows to create a
+// generator while functions of another generator are evaluated concurrently.
+var typeIdsOnce sync.Once
 
 type Value interface {
 	ToList() (*List, bool)
@@ -660,16 +667,28 @@ func (fg *FunctionGenerator) GetDocumentation() []funcGen.TypeDocumentation {
 
 func New() *FunctionGenerator {
 	f := &FunctionGenerator{}
-	IntTypeId = f.RegisterType("int", "Represents an integer value.")
-	FloatTypeId = f.RegisterType("float", "Represents a float value.")
-	StringTypeId = f.RegisterType("string", "Represents a string value.")
-	BoolTypeId = f.RegisterType("bool", "Represents a boolean value.")
-	ListTypeId = f.RegisterType("list", "Represents a list of values.")
-	MapTypeId = f.RegisterType("map", "Represents a key value map.")
-	ClosureTypeId = f.RegisterType("closure", "Represents a closure.")
-	FormatTypeId = f.RegisterType("format", "Used to add css to values which is used when they are exported to a html file.")
-	LinkTypeId = f.RegisterType("link", "Used to add a link to a value.")
-	FileTypeId = f.RegisterType("file", "Represents a file which can be downloaded.")
+	intId := f.RegisterType("int", "Represents an integer value.")
+	floatId := f.RegisterType("float", "Represents a float value.")
+	stringId := f.RegisterType("string", "Represents a string value.")
+	boolId := f.RegisterType("bool", "Represents a boolean value.")
+	listId := f.RegisterType("list", "Represents a list of values.")
+	mapId := f.RegisterType("map", "Represents a key value map.")
+	closureId := f.RegisterType("closure", "Represents a closure.")
+	formatId := f.RegisterType("format", "Used to add css to values which is used when they are exported to a html file.")
+	linkId := f.RegisterType("link", "Used to add a link to a value.")
+	fileId := f.RegisterType("file", "Represents a file which can be downloaded.")
+	typeIdsOnce.Do(func() {
+		IntTypeId = intId
+		FloatTypeId = floatId
+		StringTypeId = stringId
+		BoolTypeId = boolId
+		ListTypeId = listId
+		MapTypeId = mapId
+		ClosureTypeId = closureId
+		FormatTypeId = formatId
+		LinkTypeId = linkId
+		FileTypeId = fileId
+	})
 
 	fg := funcGen.New[Value]().
 		AddConstant("pi", Float(math.Pi)).
